@@ -564,6 +564,7 @@ def _run_cache_inner(case):
         hist = [('a', 'get-cache'), ('b', 'get-cache'), ('a', 'get-cache')] + hist
         if hist_rng.random() < 0.5:
             hist = [('a', 'iter-one-pattern')] + hist          # a filtered iteration on cold caches comes first
+        shared_sel = [None]
         for who, op in hist:
             c = a if who == 'a' else b
             s, p = matcase.build(c)
@@ -586,7 +587,15 @@ def _run_cache_inner(case):
                 agg = _agg_obs(Gen(s).get_agg_matrix(cache=use), p)
                 its = sorted((tuple(int(v) for v in x), tuple(int(v) for v in y), p.index(ex)) for x, y, ex in Gen(s).iter_n_sources_targets())
                 its_fresh = sorted((tuple(int(v) for v in x), tuple(int(v) for v in y), p.index(ex)) for x, y, ex in Gen(s).iter_n_sources_targets(cache=False))
-                mgr = EncoderSelector(s).get_best_assignment_manager(cache=use)
+                if use and case.get('_i', 0) % 2 == 1:
+                    # one selector object for the whole history, its (public) settings replaced before each use
+                    if shared_sel[0] is None:
+                        shared_sel[0] = EncoderSelector(s)
+                        tags.append('shared-selector')
+                    shared_sel[0].settings = s
+                    mgr = shared_sel[0].get_best_assignment_manager(cache=True)
+                else:
+                    mgr = EncoderSelector(s).get_best_assignment_manager(cache=use)
                 if use:
                     last_mgr[who] = (mgr, c, p)
             except Exception as e:
